@@ -141,17 +141,24 @@ theorem framework_shortcircuit_sound (spec : Spec) (tf : TypeFn) (impl : ImplFn)
   · have hco : ¬ ({ spec with refine := none } : Spec).countOK os.length = true := hc
     simp [hco] at hrt
 
-/-- Instance for the stdlib: every function of the regenerated parameter table whose source
-says `Type: function.StaticReturnType(T)` — whatever its `Impl` does. -/
-theorem stdlib_static_shortcircuit_sound (s : Generated.StdSpec) (_hs : s ∈ Generated.stdlibSpecs)
-    (T : Ty) (hw : Ty.wf T = true) (impl : ImplFn) (os ws : List Value) (r u : Value)
+/-- Instance for the stdlib, quantified over the regenerated TABLES: every entry of the syntax table whose
+source says `Type: function.StaticReturnType(e)` — with its parameter declarations from the parameter table,
+the declared type `T` read off `e` and the `Type` callback `Std.tfOf` assigns to the entry — whatever its
+`Impl` does.  (A function added to or changed in cty/function/stdlib changes what this says; the hypotheses
+`s ∈ stdlibSpecs`, `sy.var = s.var` can be met for every entry: C11 `every_syntax_entry_has_spec`.) -/
+theorem stdlib_static_shortcircuit_sound (sy : Generated.StdSyntax) (hsy : sy ∈ Generated.stdlibSyntax)
+    (s : Generated.StdSpec) (_hs : s ∈ Generated.stdlibSpecs) (_hv : sy.var = s.var)
+    (e : String) (he : sy.staticType = some e) (E : Stdlib.Env)
+    (impl : ImplFn) (os ws : List Value) (r u : Value)
     (hmo : ∀ a ∈ os, a.containsMarked = false) (hmw : ∀ a ∈ ws, a.containsMarked = false)
-    (hdyn : ∀ a ∈ os, a.ty.isDyn = false) (hcov : coversAll ws os = true) (hrwf : Ty.wf r.ty = true)
-    (hr : (callUnrefined (toSpec s) (C11.staticType T) impl os).1 = .ok r)
-    (hu : (callUnrefined (toSpec s) (C11.staticType T) impl ws).1 = .ok u)
-    (hno : ∀ as rt, Event.impl as rt ∉ (callUnrefined (toSpec s) (C11.staticType T) impl ws).2) :
-    Covers u r = true :=
-  framework_shortcircuit_sound _ _ impl os ws r u (fun _ t ht => by cases ht; exact hw)
+    (hdyn : ∀ a ∈ os, a.ty.isDyn = false) (hcov : coversAll ws os = true) (hrwf : Ty.wf r.ty = true) :
+    ∃ T tf, staticTy? e = some T ∧ tfOf E sy = some tf ∧
+      ((callUnrefined (toSpec s) tf impl os).1 = .ok r → (callUnrefined (toSpec s) tf impl ws).1 = .ok u →
+       (∀ as rt, Event.impl as rt ∉ (callUnrefined (toSpec s) tf impl ws).2) → Covers u r = true) := by
+  obtain ⟨T, hT, htf⟩ := C11.tfOf_static E sy hsy e he
+  refine ⟨T, C11.staticType T, hT, htf, fun hr hu hno => ?_⟩
+  have hw := C11.staticTy_wf e T hT
+  exact framework_shortcircuit_sound _ _ impl os ws r u (fun _ t ht => by cases ht; exact hw)
     (static_typeMonoW T) hmo hmw hdyn hcov hrwf hr hu hno
 
 /-- The stdlib's `refineNonNull` on top of the short-circuit: an unknown refined "not null"
@@ -206,15 +213,20 @@ theorem no_failure_before_impl (spec : Spec) (tf : TypeFn) (impl : ImplFn) (os w
 theorem weaken_keeps_type {o w : Value} (h : Weaken o w) : w.ty = o.ty ∨ w.ty.isDyn = true :=
   C12L.weaken_tyKept h
 
-/-- Instance for the stdlib: every function of the regenerated parameter table whose source says
-`Type: function.StaticReturnType(T)`, whatever its `Impl` does. -/
-theorem stdlib_static_no_failure (s : Generated.StdSpec) (_hs : s ∈ Generated.stdlibSpecs) (T : Ty)
+/-- Instance for the stdlib, quantified over the regenerated tables (as `stdlib_static_shortcircuit_sound`):
+every statically typed entry, whatever its `Impl` does. -/
+theorem stdlib_static_no_failure (sy : Generated.StdSyntax) (hsy : sy ∈ Generated.stdlibSyntax)
+    (s : Generated.StdSpec) (_hs : s ∈ Generated.stdlibSpecs) (_hv : sy.var = s.var)
+    (e : String) (he : sy.staticType = some e) (E : Stdlib.Env)
     (impl : ImplFn) (os ws : List Value) (r : Value)
     (hmo : ∀ a ∈ os, a.containsMarked = false) (hmw : ∀ a ∈ ws, a.containsMarked = false)
-    (hcov : coversAll ws os = true) (hty : TyKept ws os)
-    (hr : (callUnrefined (toSpec s) (C11.staticType T) impl os).1 = .ok r) :
-    (∃ r', (callUnrefined (toSpec s) (C11.staticType T) impl ws).1 = .ok r') ∨
-    (∃ rt, Event.impl ws rt ∈ (callUnrefined (toSpec s) (C11.staticType T) impl ws).2 ∧ ImplFailsAt impl ws rt) := by
+    (hcov : coversAll ws os = true) (hty : TyKept ws os) :
+    ∃ T tf, staticTy? e = some T ∧ tfOf E sy = some tf ∧
+      ((callUnrefined (toSpec s) tf impl os).1 = .ok r →
+        (∃ r', (callUnrefined (toSpec s) tf impl ws).1 = .ok r') ∨
+        (∃ rt, Event.impl ws rt ∈ (callUnrefined (toSpec s) tf impl ws).2 ∧ ImplFailsAt impl ws rt)) := by
+  obtain ⟨T, hT, htf⟩ := C11.tfOf_static E sy hsy e he
+  refine ⟨T, C11.staticType T, hT, htf, fun hr => ?_⟩
   rcases no_failure_before_impl _ _ impl os ws r (static_typeMonoW T) hmo hmw hcov hty hr with h | ⟨rt, _, h2, h3⟩
   · exact Or.inl h
   · exact Or.inr ⟨rt, h2, h3⟩
